@@ -1096,6 +1096,16 @@ class Interp:
             if d is not None:
                 return Const(d)
             return c
+        if isinstance(l, TupleV) and isinstance(r, TupleV) and opname in ("==", "!="):
+            if len(l.items) != len(r.items):
+                return Const(opname == "!=")
+            parts = [self.compare(ast.Eq(), a, b) for a, b in zip(l.items, r.items)]
+            ds = [self.decide(p) for p in parts]
+            if all(d is True for d in ds):
+                return Const(opname == "==")
+            if any(d is False for d in ds):
+                return Const(opname == "!=")
+            return CondV("opaque", opname, l, r)
         if isinstance(l, Grid) or isinstance(r, Grid):
             return self.elementwise2(l, r, lambda a, b: self.compare(op, a, b), "cmp")
         if isinstance(l, Top):
